@@ -45,6 +45,10 @@ type Prog struct {
 	Overlay  map[string][]byte
 	unproven map[string]string
 	req      map[*ssa.Function]bool
+
+	roleFn    map[string]*ssa.Function
+	roleField map[string]*types.Var
+	roleNotes []string
 }
 
 func goEnv(extra ...string) []string {
@@ -145,6 +149,7 @@ func LoadRepo(repo string, whole bool, goarch string, overlay map[string][]byte)
 	if len(p.funcs) < 100 {
 		return nil, fmt.Errorf("only %d module functions found; expected > 100", len(p.funcs))
 	}
+	p.resolveRoles()
 	return p, nil
 }
 
@@ -259,7 +264,10 @@ func (p *Prog) Fn(pkg, name string) *ssa.Function {
 	if sp == nil {
 		return nil
 	}
-	return sp.Func(name)
+	if f := sp.Func(name); f != nil {
+		return f
+	}
+	return p.roleFn[roleKey(pkg, "", name)]
 }
 
 // Named returns the named type pkg.name or nil.
@@ -303,6 +311,9 @@ func (p *Prog) Meth(pkg, typ, name string) *ssa.Function {
 			return f
 		}
 	}
+	if p.roleFn != nil {
+		return p.roleFn[roleKey(pkg, typ, name)]
+	}
 	return nil
 }
 
@@ -327,6 +338,9 @@ func (p *Prog) Field(pkg, typ, name string) *types.Var {
 		if st.Field(i).Name() == name {
 			return st.Field(i)
 		}
+	}
+	if p.roleField != nil {
+		return p.roleField[typ+"."+name]
 	}
 	return nil
 }
